@@ -114,7 +114,7 @@ func genMsg(t *rapid.T, big bool) Msg {
 		Action:  u32.Draw(t, "action"),
 		Seed:    rapid.Uint32().Draw(t, "seed"),
 	}
-	classes := []string{"zero", "one", "n27", "n28", "n29", "small", "small", "literal", "k64"}
+	classes := []string{"zero", "one", "n27", "n28", "n29", "small", "small", "literal", "k64", "pow2", "pow2"}
 	if big {
 		classes = append(classes, "max-1", "max")
 	}
@@ -137,6 +137,14 @@ func genMsg(t *rapid.T, big bool) Msg {
 		m.Len = len(b)
 	case "k64":
 		m.Len = 65536 + rapid.IntRange(-1, 1).Draw(t, "d")
+	case "pow2":
+		// around a power of two, within a header's length of it on either side:
+		// where buffers of "natural" sizes start and stop fitting
+		k := rapid.IntRange(6, 18).Draw(t, "pow")
+		m.Len = 1<<k + rapid.IntRange(-34, 34).Draw(t, "around")
+		if rapid.IntRange(0, 3).Draw(t, "multiple") == 0 {
+			m.Len = (1<<k)*rapid.IntRange(1, 3).Draw(t, "times") + rapid.IntRange(-34, 34).Draw(t, "around2")
+		}
 	case "max-1":
 		m.Len = int(qnet.MaxPayloadSize) - 1
 	case "max":
